@@ -29,6 +29,41 @@ func (p *Point) Numeric() map[string]float64 {
 			out[k] = x
 		case int:
 			out[k] = float64(x)
+		case []float64:
+			// an array value: its first element belongs to the point itself, every further element
+			// is inserted as a point of its own that carries only this field (see Expand)
+			if len(x) > 0 {
+				out[k] = x[0]
+			}
+		case []int:
+			if len(x) > 0 {
+				out[k] = float64(x[0])
+			}
+		}
+	}
+	return out
+}
+
+// Expand returns the points zenodb makes of p: p itself and, for every array value, one further point
+// per additional element with the same timestamp and dimensions and only that field ("separate
+// inserts for additional values", insert.go). Every one of them counts in _points.
+func (p *Point) Expand() []Point {
+	out := []Point{*p}
+	var names []string
+	for k := range p.Vals {
+		names = append(names, k)
+	}
+	sort.Strings(names)
+	for _, k := range names {
+		switch x := p.Vals[k].(type) {
+		case []float64:
+			for _, e := range x[1:] {
+				out = append(out, Point{ID: p.ID, TS: p.TS, Dims: p.Dims, Vals: map[string]interface{}{k: e}})
+			}
+		case []int:
+			for _, e := range x[1:] {
+				out = append(out, Point{ID: p.ID, TS: p.TS, Dims: p.Dims, Vals: map[string]interface{}{k: e}})
+			}
 		}
 	}
 	return out
@@ -523,6 +558,11 @@ func CanonKey(m map[string]interface{}) string {
 // acceptance the reference could not decide.
 func (t *TableSpec) Aggregate(points []Point) (cells map[string]*Cell, outOfDomain int) {
 	cells = map[string]*Cell{}
+	var expanded []Point
+	for i := range points {
+		expanded = append(expanded, points[i].Expand()...)
+	}
+	points = expanded
 	for i := range points {
 		p := &points[i]
 		acc, ok := t.Accepts(p)
